@@ -45,6 +45,19 @@ def l1_monitor(rec):
             out.append("timeout tick replayed step %s although waiter %s was already resolved" % (t.step_name, t.waiter_id))
     elif isinstance(t, TickStepResult):
         b = before.workers[t.step_name]
+        from workflows.runtime.types.results import DeleteWaiter, StepWorkerResult
+        completed = any(isinstance(r, StepWorkerResult) for r in t.result)
+        stopped = any(isinstance(r, StepWorkerResult) and type(r.result).__name__ in ("StopEvent", "MyStop") for r in t.result)
+        for r in t.result:
+            if isinstance(r, DeleteWaiter) and not completed and not stopped:
+                # the step has not completed (it is suspended in a later wait, or it failed and may be retried): the
+                # consumed waiter must stay, otherwise the replay registers and publishes it a second time
+                had = any(x.waiter_id == r.waiter_id for x in b.collected_waiters)
+                readded = any(isinstance(q, AddWaiter) and q.waiter_id == r.waiter_id for q in t.result)
+                has = any(x.waiter_id == r.waiter_id for x in after.workers[t.step_name].collected_waiters)
+                if had and not has and not readded:
+                    out.append("waiter %s of step %s was deleted although the step has not completed (its replay will "
+                               "register it again)" % (r.waiter_id, t.step_name))
         for r in t.result:
             if isinstance(r, AddWaiter):
                 existed = any(x.waiter_id == r.waiter_id for x in b.collected_waiters)
@@ -65,14 +78,25 @@ def l2_monitor(spec, rec, obs):
     res = Counter()
     for r in rec.log:
         if r["kind"] in ("wait-result", "wait-timeout"):
-            res[(r["step"], r["i"])] += 1
+            res[(r["step"], r["i"], str(r.get("want", r.get("wid"))))] += 1
         if r["kind"] == "wait-result":
             ty, _, data = r["got"]
             if ty != r["want"] or any(data.get(k) != v for k, v in r["reqs"].items()):
                 out.append("wait_for_event returned %s %s which does not satisfy %s %s" % (ty, data, r["want"], r["reqs"]))
     for k, c in res.items():
-        if c > 1:
+        if c > 1 and spec.get("two_waits") is None:
             out.append("step %s input i=%s resumed from its wait %d times" % (k[0], k[1], c))
+    if spec.get("two_waits") is not None:
+        # two sequential waits: a replay passes the first (already answered) wait again, so count completions instead:
+        # each invocation is entered at most 3 times (start, after 1st answer, after 2nd answer) + duplicates never add one
+        ent = Counter(r["i"] for r in rec.log if r["kind"] == "enter" and r["step"] == "b_two")
+        for i, c in ent.items():
+            if c > 3:
+                out.append("step b_two input i=%s was entered %d times for two waits (a consumed waiter was registered again)" % (i, c))
+        nir = sum(1 for e in obs.stream if isinstance(e, IR))
+        if nir > 2 * spec["two_waits"]:
+            out.append("waiter_event published %d times for %d waiters" % (nir, 2 * spec["two_waits"]))
+        return out, res
     n = sum(1 for r in rec.log if r["kind"] == "send" and r["ev"] == "T1")
     script = spec["steps"]["b_wait"]["script"]
     if script[0][5] is not None:
@@ -94,19 +118,19 @@ def run(ctx):
     fails, timeouts, results, dups = [], 0, 0, 0
     for i in range(n2):
         seed = rng.randrange(1 << 30)
-        spec, rec, obs = E.run_case(S.waitfan, seed)
+        spec, rec, obs = E.run_case(S.twowaits if i % 4 == 3 else S.waitfan, seed)
         why, res = l2_monitor(spec, rec, obs)
         timeouts += sum(1 for r in rec.log if r["kind"] == "wait-timeout")
         results += sum(1 for r in rec.log if r["kind"] == "wait-result")
         ext = [r["k"] for r in rec.log if r["kind"] == "external"]
         dups += 1 if len(set(ext)) < len(ext) else 0
-        ctx.count(1, ("l2", seed % 1000, tuple(sorted(res.items())), len(rec.log)))
+        ctx.count(1, ("l2", seed % 1000, tuple(sorted(res.items(), key=str)), len(rec.log)))
         if i < 3:
             ctx.sample(dict(kind="l2-run", template="waitfan", seed=seed, externals=ext,
                             resumptions={str(k): v for k, v in res.items()},
                             actions=[str(a) for a in obs.actions[:6]]), limit=8)
         for w in why:
-            fails.append(dict(template="waitfan", seed=seed, why=w, actions=[str(a) for a in obs.actions]))
+            fails.append(dict(template="twowaits" if i % 4 == 3 else "waitfan", seed=seed, why=w, actions=[str(a) for a in obs.actions]))
     ctx.programs += n2
     ctx.suite("engine", runs=n2, wait_results=results, wait_timeouts=timeouts, runs_with_duplicate_response=dups,
               failures=len(fails))
